@@ -20,7 +20,8 @@ RULE = ("exhaustive grid over 8 sequence kinds x lengths 0..6 x 34 index values 
 ASSUMPTIONS = [
     "Python list/bytes indexing and slicing is the reference",
     "strings are modelled as their UTF-8 bytes; a result that is valid UTF-8 is a string, otherwise bytes (observed convention)",
-    "multi-byte strings only for s[i] and s[a:b]; accessors that are character-based (uncons/unsnoc/first/last) use ASCII strings",
+    "multi-byte strings for s[i], s[a:b] and the byte-based accessors first/second/third/last/tail/butlast/take/drop; "
+    "uncons/unsnoc/only are character-based on strings (observed) and are exercised on ASCII strings only",
     "slice bounds beyond 64 bits may raise; `!?` with a negative index may return null or the element",
     "stream results are compared after list()",
 ]
@@ -47,11 +48,18 @@ def kinds(L):
         ("range", "(1 to %d)" % L, list(range(1, L + 1)), lambda xs: list(xs), lambda x: x),
         ("wrapped", "stream(%s)" % render(ints), ints, lambda xs: list(xs), lambda x: x),
         ("lazymap", "((1 to %d) lazy_map (*10))" % L, ints, lambda xs: list(xs), lambda x: x),
+        # partly consumed streams: the elements already taken must not be addressable any more
+        ("wrapped_drop", "(stream(%s) drop 2)" % render([1, 2] + ints), ints, lambda xs: list(xs), lambda x: x),
+        ("wrapped_slice", "stream(%s)[1:]" % render([0] + ints), ints, lambda xs: list(xs), lambda x: x),
+        ("wrapped_uncons", "uncons(stream(%s))[1]" % render([0] + ints), ints, lambda xs: list(xs), lambda x: x),
+        ("range_tail", "tail(0 to %d)" % L, list(range(1, L + 1)), lambda xs: list(xs), lambda x: x),
+        ("lazymap_drop", "(((0-1) to %d) lazy_map (*10) drop 2)" % L, ints, lambda xs: list(xs), lambda x: x),
+        ("wrapped_str_drop", "(stream(%s) drop 1)" % render("q" + asc), list(asc), lambda xs: list(xs), lambda x: x),
     ]
     return out
 
 
-STREAMS = ("range", "wrapped", "lazymap")
+STREAMS = ("range", "wrapped", "lazymap", "wrapped_drop", "wrapped_slice", "wrapped_uncons", "range_tail", "lazymap_drop", "wrapped_str_drop")
 
 
 def str_result(bs):
@@ -115,8 +123,9 @@ def build_cases(kind, src, E, mk, mk1, L):
             yield ("slice", wrap % ("%s[%s:%s]" % (S, sa, sb_)), ("eq", want) if fits else ("either", want), (a, b))
         for t in NONINT[:2]:
             yield ("slice_nonint", wrap % ("%s[%s:]" % (S, t)), ("err",), None)
-    if kind == "string":
-        return
+    # on multi-byte strings the positional accessors are byte-based like indexing (observed); uncons / unsnoc / only are
+    # character-based there and are exercised on the ASCII string only
+    multibyte = kind == "string"
     # --- accessors (two call forms each)
     def acc(name, f1, f2, exp):
         yield (name, wrap % (f1 % S), exp, None)
@@ -131,6 +140,8 @@ def build_cases(kind, src, E, mk, mk1, L):
         yield ("take", wrap % ("(take %s)(%s)" % (isrc(k), S)), ("eq", mk(E[:k])), k)
         yield ("drop", wrap % ("%s drop %s" % (S, isrc(k))), ("eq", mk(E[k:])), k)
         yield ("drop", wrap % ("(_ drop %s)(%s)" % (isrc(k), S)), ("eq", mk(E[k:])), k)
+    if multibyte:
+        return
     yield from acc("uncons", "uncons(%s)", "%s . uncons", ("eq", [mk1(E[0]), mk(E[1:])]) if n else ("err",))
     yield from acc("unsnoc", "unsnoc(%s)", "%s . unsnoc", ("eq", [mk(E[:-1]), mk1(E[-1])]) if n else ("err",))
     yield from acc("only", "only(%s)", "%s . only", ("eq", mk1(E[0])) if n == 1 else ("err",))
@@ -296,7 +307,7 @@ CHECKS = {"grid": check_grid, "expr": check_expr, "rand": check_rand}
 
 def worker(ctx):
     maxL = ctx.scale(6, 9)
-    jobs = [(ki, L) for L in range(0, maxL + 1) for ki in range(8)]
+    jobs = [(ki, L) for L in range(0, maxL + 1) for ki in range(len(kinds(0)))]
     for n, (ki, L) in enumerate(jobs):
         if n % ctx.nworkers == ctx.index:
             ctx.check("grid", {"ki": ki, "L": L})
